@@ -278,3 +278,49 @@ Definition line_closed (s : bytes) : bool :=
   end.
 Fixpoint no_nl (s : bytes) : bool :=
   match s with [] => true | c :: rest => negb (N.eqb c 10) && no_nl rest end.
+
+(** * Reading the rollback statements of a liquibase changeset
+
+    Liquibase takes the rollback of a changeset from its "--rollback: " comment lines, in file
+    order, and rolls changesets back from the last to the first.  [lq_rollbacks] is that reader for
+    the text of one changeset: the lines starting with "--rollback: ", without the prefix and
+    without one trailing ";". *)
+Fixpoint lines_go (acc : bytes) (s : bytes) : list bytes :=
+  match s with
+  | [] => [List.rev acc]
+  | c :: rest => if N.eqb c 10 then List.rev acc :: lines_go [] rest else lines_go (c :: acc) rest
+  end.
+Definition lines (s : bytes) : list bytes := lines_go [] s.
+
+Fixpoint has_prefix (s p : bytes) {struct p} : bool :=
+  match p, s with
+  | [], _ => true
+  | x :: p', y :: s' => N.eqb x y && has_prefix s' p'
+  | _ :: _, [] => false
+  end.
+
+(** strings.TrimSuffix(l, ";") *)
+Definition trim_semi (l : bytes) : bytes :=
+  match List.rev l with
+  | c :: r => if N.eqb c 59 then List.rev r else l
+  | [] => l
+  end.
+
+Definition lq_rollback_of_line (l : bytes) : list bytes :=
+  if has_prefix l s_lq_rollback then [trim_semi (skipn (length s_lq_rollback) l)] else [].
+Definition lq_rollbacks (changeset : bytes) : list bytes :=
+  flat_map lq_rollback_of_line (lines changeset).
+
+(** the texts of the changesets of a file, in file order *)
+Fixpoint lq_changeset_texts (now : bytes) (index : nat) (changes : list mchange) : list bytes :=
+  match changes with
+  | [] => []
+  | c :: rest => lq_changeset now index c :: lq_changeset_texts now (S index) rest
+  end.
+(** what a rollback of the whole file executes: changesets last to first *)
+Definition liquibase_down (now : bytes) (changes : list mchange) : list bytes :=
+  flat_map lq_rollbacks (List.rev (lq_changeset_texts now 0 changes)).
+
+(** no line of the statement (followed by its ";") looks like a rollback comment *)
+Definition lq_cmd_ok (cmd : bytes) : bool :=
+  forallb (fun l => negb (has_prefix l s_lq_rollback)) (lines (cmd ++ [59%N])).
